@@ -1619,6 +1619,35 @@ fn merge(main: &mut Report, w: Report) {
     }
 }
 
+/// the complete `read_v` grid: every `t` × every text class × every style spelling, one cell per sheet
+fn typing_grid(rep: &mut Report, drv: &mut Driver) {
+    use xlsxw::{end, start, text};
+    let ts: [Option<&str>; 11] = [None, Some("s"), Some("b"), Some("e"), Some("d"), Some("str"), Some("n"), Some("is"), Some("inlineStr"), Some("zz"), Some("")];
+    let vs = ["", "0", "1", "2", "true", "#N/A", "#DIV/0!", "#BAD", "1.5", "abc", "7", "-1", "007", "00000000000000000001", "000000000000000000001", "1e3", " 1"];
+    let ss: [Option<&str>; 7] = [None, Some("0"), Some("1"), Some("9"), Some("x"), Some(""), Some("01")];
+    let strings = vec!["a".to_string(), "b".to_string()];
+    for t in ts {
+        for v in vs {
+            for st in ss {
+                let mut a: Vec<(&str, &str)> = vec![("r", "C3")];
+                if let Some(st) = st {
+                    a.push(("s", st));
+                }
+                if let Some(t) = t {
+                    a.push(("t", t));
+                }
+                let mut evs = vec![start("worksheet", &[("xmlns", xlsxw::NS_MAIN)]), start("sheetData", &[]), start("row", &[("r", "3")]), start("c", &a), start("v", &[])];
+                if !v.is_empty() {
+                    evs.push(text(v));
+                }
+                evs.extend([end("v"), end("c"), end("row"), end("sheetData"), end("worksheet")]);
+                let input = format!("typing t={} v={} s={}", t.unwrap_or("-"), hex(v.as_bytes()), st.unwrap_or("-"));
+                check_events(&input, &evs, &strings, "typing", 1, rep, drv);
+            }
+        }
+    }
+}
+
 fn main() {
     let args = Args::parse();
     let mut rep = Report::new(
@@ -1641,6 +1670,7 @@ fn main() {
                 }
             }
             "malformed" => malformed_case(w[1].parse().expect("seed"), &mut rep, &mut drv),
+            "typing" => typing_grid(&mut rep, &mut drv),
             "lean" => lean_case(w[1].parse().expect("seed"), &mut rep, &mut drv),
             #[cfg(feature = "hooks")]
             "unit" if w[1] == "a1" => unit::one_a1(&mut rep, &mut drv, &unhex(w[2]), None),
@@ -1655,6 +1685,7 @@ fn main() {
     for name in CORPUS {
         run_corpus(name, &mut rep, &mut drv);
     }
+    typing_grid(&mut rep, &mut drv);
     #[cfg(feature = "hooks")]
     {
         unit::sweeps(&mut rep, &mut drv);
